@@ -255,9 +255,7 @@ theorem capOk_canon (c : Cap) (h : capOk c = true) : capOk (canonCap c) = true :
   | fqdn hh d =>
       simp only [capOk, Bool.and_eq_true, decide_eq_true_eq, List.all_eq_true, canonCap, List.length_map] at h ⊢
       obtain ⟨⟨h1, h2⟩, h3⟩ := h
-      refine ⟨⟨?_, ?_⟩, h3⟩
-      · intro x hx; obtain ⟨y, hy, rfl⟩ := List.mem_map.mp hx; exact lower_lt y (h1 y hy)
-      · intro x hx; obtain ⟨y, hy, rfl⟩ := List.mem_map.mp hx; exact lower_lt y (h2 y hy)
+      exact ⟨⟨by rw [utf8Valid_lower]; exact h1, by rw [utf8Valid_lower]; exact h2⟩, h3⟩
   | _ => exact h
 
 theorem capsBlock_canon (caps : List Cap) : (caps.map canonCap).flatMap capBytes = caps.flatMap capBytes := by
